@@ -88,6 +88,13 @@ func run(c *core.Ctx) int {
 	}
 	xres := core.RunCases(c, "replace", xcases, core.ChildOpts{Batch: 10, TimeoutS: 900, RlimitAS: 4 << 30})
 
+	nFsm := c.N(160, 4000)
+	var fcases []json.RawMessage
+	for i := 0; i < nFsm; i++ {
+		fcases = append(fcases, core.J(fsmCase{Seed: rng.U64(), Kind: []string{"dirfs", "mapfs"}[i%2], Root: root}))
+	}
+	fres := core.RunCases(c, "fsmount", fcases, core.ChildOpts{Batch: 10, TimeoutS: 900, RlimitAS: 4 << 30})
+
 	evals := int64(0)
 	crash := func(mode string, cs json.RawMessage, r core.CaseResult) bool {
 		if r.Crash == nil {
@@ -271,6 +278,42 @@ func run(c *core.Ctx) int {
 			c.Inconclusive("replaced-dir:shape-not-reached:" + sh)
 		}
 	}
+	for _, r := range fres {
+		if crash("fsmount", fcases[r.Index], r) {
+			continue
+		}
+		var out struct {
+			Runs []*fsmResult `json:"runs"`
+		}
+		if err := json.Unmarshal(r.Out, &out); err != nil || len(out.Runs) == 0 {
+			c.Inconclusive("bad-child-output")
+			continue
+		}
+		for _, fr := range out.Runs {
+			if strings.HasPrefix(fr.Ended, "harness:") {
+				c.Inconclusive("harness-error")
+				continue
+			}
+			evals++
+			c.Count("fsmount_scripts", 1)
+			for k, n := range fr.Counts {
+				c.Count("fsmount_"+k, int64(n))
+			}
+			c.Distinct("fsmount_scripts", fr.Shape)
+			if r.Index%37 == 0 {
+				c.Sample(map[string]any{"mode": "fsmount", "case": fcases[r.Index], "first_calls": fr.Log})
+			}
+			for _, f := range fr.Findings {
+				c.Count("finding:"+f.Sig, 1)
+				c.Violate(f.Sig, f.Detail, map[string]any{"mode": "fsmount", "case": fcases[r.Index], "engine": f.Engine, "finding": f})
+			}
+		}
+	}
+	for _, k := range []string{"O_DIRECTORY-on-file", "missing", "O_CREAT-missing", "too-long-name"} {
+		if c.Counter("fsmount_failed_opens:"+k) == 0 {
+			c.Inconclusive("fsmount:failed-open-kind-not-reached:" + k)
+		}
+	}
 	for _, b := range []int{64, 128, 192} {
 		c.Count(fmt.Sprintf("many_fd_crossed_%d_open", b), int64(crossed[b]))
 		if crossed[b] == 0 {
@@ -329,9 +372,10 @@ func run(c *core.Ctx) int {
 	c.Assume("fd_readdir: a cookie older than the previous successful call's window may be refused with ENOENT (documented by wazero's DirentCache); cookie 0 starts a new pass; directory changes are only required to be visible after a rewind")
 	c.Assume("many-descriptor histories: path_open returns the lowest free descriptor number (POSIX rule, documented by wazero at FdPreopen) also across the 64/128/192 table-word boundaries; inode numbers reported by fd_filestat_get are compared with the ones path_filestat_get gave for the same path at the start (same guest view); stdio and the preopen are compared with their own state at start")
 	c.Assume("replaced-directory scripts: whatever errno is returned, a descriptor never shows entries or the inode of a different directory created later at the path it was opened with (sig dirfd-adopts-recreated-directory:*); resolution by the stale path name and failing/empty listings of renamed directories stay in the dirfd-stale-name family")
+	c.Assume("fs.FS mounts (WithFSMount of os.DirFS / fstest.MapFS): no mutation possible - every mutating call must fail with any errno and the host tree stays unchanged; creation/exclusive flags of path_open are ignored by the adapter, so their outcome is unspecified while the descriptor rules (lowest free number on success, no descriptor left by a failed open) always apply")
 	c.Assume("timestamps, inode numbers, nlink and directory sizes are not compared; directory order is not compared, only the multiset")
 	return c.Finish(evals, int64(c.DistinctN("history_shapes")+c.DistinctN("readdir_scripts")),
-		"evaluations = histories x engines + readdir scripts x engines + many-descriptor histories x engines + replaced-directory scripts x engines run to a verdict; distinct = distinct op:scenario sequences of histories with >=10 operations + distinct readdir call logs")
+		"evaluations = histories x engines + readdir scripts x engines + many-descriptor histories x engines + replaced-directory scripts x engines + fs.FS-mount scripts x engines run to a verdict; distinct = distinct op:scenario sequences of histories with >=10 operations + distinct readdir call logs")
 }
 
 func firstWords(s string) string {
@@ -347,6 +391,10 @@ func firstWords(s string) string {
 
 func child(mode string, in json.RawMessage) any {
 	switch mode {
+	case "fsmount":
+		var fc fsmCase
+		json.Unmarshal(in, &fc)
+		return map[string]any{"runs": []*fsmResult{runFSMount(fc, 0), runFSMount(fc, 1)}}
 	case "replace":
 		var xc replCase
 		json.Unmarshal(in, &xc)
@@ -407,7 +455,15 @@ func replay(c *core.Ctx, path string) int {
 			rc = 1
 		}
 	}
-	if w.Witness.Mode == "replace" {
+	if w.Witness.Mode == "fsmount" {
+		var k fsmCase
+		json.Unmarshal(w.Witness.Case, &k)
+		k.Root, k.Trace = root, true
+		for e := 0; e < 2; e++ {
+			r := runFSMount(k, e)
+			show(engineNames[e], r.Log, r.Findings)
+		}
+	} else if w.Witness.Mode == "replace" {
 		var k replCase
 		json.Unmarshal(w.Witness.Case, &k)
 		k.Root, k.Trace = root, true
